@@ -4,8 +4,9 @@ runs the static checks against it.  usage: seedtest.py <seed dir with patch.diff
 import json, os, re, subprocess, sys, shutil, time
 
 src, prop, name = sys.argv[1], sys.argv[2], sys.argv[3]
-WT = "/tmp/sv_wt"
-TGT = "/tmp/sv_target"
+LANE = os.environ.get("SEEDTEST_LANE", "")
+WT = "/tmp/sv_wt" + LANE
+TGT = "/tmp/sv_target" + LANE
 VERIF = "/verif"
 env = dict(os.environ, CARGO_NET_OFFLINE="true", CARGO_TARGET_DIR=TGT)
 
